@@ -13,7 +13,7 @@ def main():
         print("---- FAIL", f["obligation"], f["message"], f["repo_loc"])
         print(f["rendered"])
     if res.status == "undecided":
-        print(res.raw_err[-6000:])
+        print(res.raw_err[:3500])
     for f in res.functions:
         if f.get("time", 0) > 2000: print("slow:", f)
 main()
